@@ -702,7 +702,8 @@ class KlongInterpreter():
                 f = self._get_op_fn(x.a.a, x.a.arity)
                 fa = (x.args if isinstance(x.args, list) else [x.args]) if x.args is not None else x.args
                 _y = self.eval(fa[1]) if x.a.arity == 2 else None
-                _x = fa[0] if x.a.a in ['::','∇'] else self.eval(fa[0])
+                # the target of :: and a parameter named by a symbol (w∇f) stay unevaluated; a point given as an expression is a value
+                _x = fa[0] if (x.a.a == '::' or (x.a.a == '∇' and isinstance(fa[0], KGSym))) else self.eval(fa[0])
                 return f(_x) if x.a.arity == 1 else f(_x, _y)
             elif x.is_adverb_chain():
                 # Try compiled path for adverb chains (reduce/scan)
